@@ -44,6 +44,8 @@ def slice_boundaries_ok(ctx):
             if st['k'] == 'assign' and place_fields(st['place'])[:1] == ['pos'] and any(
                     isinstance(e, dict) and e.get('of') == 'lexer::Tokenizer' for e in st['place']['proj']):
                 writers.add(f.path)
+    tkf = [f_['name'] for f_ in F.adt('lexer::Tokenizer')['variants'][0]['fields']]
+    no_pos = 'pos' not in tkf
     ok_w = writers <= {T + 'bump', T + 'new'}
     # bump: pos += len_utf8(c) with c the char just taken from chars
     bump = F.fn(T + 'bump')
@@ -53,6 +55,9 @@ def slice_boundaries_ok(ctx):
             v = sym(bump, st['rv']['op']) if st['rv']['k'] == 'use' else None
             s_ = str(v)
             okb = 'len_utf8' in s_ and 'Add' in s_
+    if no_pos:
+        # no counter: offset() is derived from what the character iterator still covers, which always starts on a character boundary
+        okb = True
     # read_str arguments
     bad = []
     for f, b, t in F.callers_of(lambda p: p == T + 'read_str'):
@@ -480,6 +485,24 @@ def _skips_first(F, ps, model):
     return True if kinds == {'skip'} else (False if 'skip' not in kinds else None)
 
 
+def _len_of_field(p, v, name, self_field):
+    v = uncast(v)
+    if not (v[0] == 'call' and v[1].endswith('::len') and v[2]):
+        return False
+    a = v[2][0]
+    a = p.env.get(a[1][:-2], a) if a[0] == 'ref' and a[1].endswith('.*') else a
+    return self_field(a, name)
+
+
+def _len_of_rest(p, v, self_field):
+    v = uncast(v)
+    if not (v[0] == 'call' and v[1].endswith('::len') and v[2]):
+        return False
+    a = v[2][0]
+    a = p.env.get(a[1][:-2], p.env.get(a[1], a)) if a[0] == 'ref' else a
+    return a[0] == 'call' and 'Chars' in a[1] and a[1].endswith('::as_str') and self_field(a[2][0], 'chars')
+
+
 def check_lexer_primitives(ctx, rep, rule):
     """the table extraction treats peek / bump / offset / is_eof as *the next character / consume it / the byte position /
     nothing left*; these contracts are read from their MIR (the same way CSA's emit primitives are, R02.8)"""
@@ -493,6 +516,9 @@ def check_lexer_primitives(ctx, rep, rule):
         v = uncast(v)
         return name in fi and v in (('ref', '_1.*.f%d' % fi[name]), ('field', ('deref', ('local', 1)), name))
 
+    stored_pos = 'pos' in fi
+    # two representations of `how far are we`: a byte counter kept by bump (pos), or none at all - the position is then the part
+    # of `input` the character iterator no longer covers (input.len() - chars.as_str().len())
     # peek: a clone of the character iterator is advanced, self is not written
     fn = F.fn(T + 'peek')
     ps = [p for p in AbsInt(F, fn).run() if p.exit == 'return']
@@ -521,6 +547,11 @@ def check_lexer_primitives(ctx, rep, rule):
             continue
         r = simp(p.env.get('_0'))
         posw = [w for w in p.writes if w[1] == '_1.*.f%d' % fi.get('pos', -1)]
+        if not stored_pos:
+            # no counter to keep: bump is exactly the iterator's next()
+            somes += 1
+            ok = ok and p.env.get('_0') == ('call', nx[0][1], nx[0][2], nx[0][0]) and not [w for w in p.writes if w[1].startswith('_1.*')]
+            continue
         if r and r[0] == 'agg' and r[2] == 'Some':
             somes += 1
             c = r[3][0]
@@ -539,8 +570,16 @@ def check_lexer_primitives(ctx, rep, rule):
     # offset: the byte position
     fn = F.fn(T + 'offset')
     ps = [p for p in AbsInt(F, fn).run() if p.exit == 'return']
-    ok = len(ps) == 1 and not ps[0].calls and uncast(ps[0].env.get('_0')) == ('field', ('deref', ('local', 1)), 'pos')
-    rep.ob(ok, rule, fn.path, 'contract', 'offset() = pos', fn.loc())
+    if stored_pos:
+        ok = len(ps) == 1 and not ps[0].calls and uncast(ps[0].env.get('_0')) == ('field', ('deref', ('local', 1)), 'pos')
+    else:
+        ok = len(ps) == 1
+        if ok:
+            r = uncast(ps[0].env.get('_0'))
+            if r[0] == 'field' and r[2] == '0' and r[1][0] == 'binop' and r[1][1] == 'SubWithOverflow':
+                r = ('binop', 'Sub', r[1][2], r[1][3])
+            ok = r[0] == 'binop' and r[1] == 'Sub' and _len_of_field(ps[0], r[2], 'input', self_field) and _len_of_rest(ps[0], r[3], self_field)
+    rep.ob(ok, rule, fn.path, 'contract', 'offset() = pos' if stored_pos else 'offset() = input.len() - (what the character iterator still covers).len()', fn.loc())
     # is_eof (when the lexer has it): offset() >= input.len()
     if (T + 'is_eof') in F.fns:
         fn = F.fn(T + 'is_eof')
@@ -548,7 +587,15 @@ def check_lexer_primitives(ctx, rep, rule):
         ok = len(ps) == 1
         if ok:
             r = uncast(ps[0].env.get('_0'))
-            ok = r[0] == 'binop' and r[1] in ('Ge', 'Eq') and ('offset(' in show(r[2]) or '.pos' in show(r[2]))
+            if r[0] == 'call' and r[1].endswith('::is_empty') and r[2]:
+                # nothing left in the character iterator
+                a_ = r[2][0]
+                a_ = ps[0].env.get(a_[1][:-2], ps[0].env.get(a_[1], a_)) if a_[0] == 'ref' else a_
+                ok = a_[0] == 'call' and 'Chars' in a_[1] and a_[1].endswith('::as_str') and self_field(a_[2][0], 'chars')
+                rep.ob(ok, rule, fn.path, 'contract', 'is_eof() = chars.as_str().is_empty()', fn.loc())
+                ok = None
+            else:
+                ok = r[0] == 'binop' and r[1] in ('Ge', 'Eq') and ('offset(' in show(r[2]) or '.pos' in show(r[2]))
             if ok:
                 ln = uncast(r[3])
                 ok = ln[0] == 'call' and ln[1].endswith('::len') and bool(ln[2])
@@ -556,7 +603,8 @@ def check_lexer_primitives(ctx, rep, rule):
                     a = ln[2][0]
                     a = ps[0].env.get(a[1][:-2], a) if a[0] == 'ref' and a[1].endswith('.*') else a
                     ok = self_field(a, 'input')
-        rep.ob(ok, rule, fn.path, 'contract', 'is_eof() = offset() >= input.len()', fn.loc())
+        if ok is not None:
+            rep.ob(ok, rule, fn.path, 'contract', 'is_eof() = offset() >= input.len()', fn.loc())
     # the character iterator is the input's own: Tokenizer::new builds chars from the same text it stores
     fn = F.fn('lexer::Tokenizer::<\'_>::new') if 'lexer::Tokenizer::<\'_>::new' in F.fns else next((f for f in F.all_fns if f.path.startswith('lexer::Tokenizer') and f.path.endswith('::new')), None)
     ok = False
@@ -567,7 +615,7 @@ def check_lexer_primitives(ctx, rep, rule):
                 vals = dict(zip(fields, r[3]))
                 ch = vals.get('chars')
                 is_in = lambda x: uncast(x) in (('local', 1), ('ref', '_1.*'))
-                ok = vals.get('pos') == ('int', 0, 'usize') and is_in(vals.get('input')) and ch[0] == 'call' and ch[1].endswith('::chars') and is_in(ch[2][0])
+                ok = vals.get('pos', ('int', 0, 'usize')) == ('int', 0, 'usize') and is_in(vals.get('input')) and ch[0] == 'call' and ch[1].endswith('::chars') and is_in(ch[2][0])
     rep.ob(ok, rule, 'lexer::Tokenizer::new', 'contract', 'a tokenizer starts at position 0 with the character iterator of the text it stores', fn.loc() if fn else 'src/lexer.rs')
 
 
